@@ -353,6 +353,8 @@ def register(reg):
         ensures=[
             # only ever appends one dot-joined completion to the reaction it was given [C02]
             "prefixof(as_str(reaction_dict[reaction_col]) + '.', result[0])",
+            # ... so a reaction stays a reaction (the '>>' of the given text is still there)
+            "implies(contains(as_str(reaction_dict[reaction_col]), '>>'), contains(result[0], '>>'))",
             # refuses rows that carry an issue or lack carbon on the reactant side [C03]
             "not (issue_col in reaction_dict) or reaction_dict[issue_col] == ''",
             "reaction_dict[carbon_balance_col] == 'products' or reaction_dict[carbon_balance_col] == 'balanced'",
@@ -379,6 +381,7 @@ def register(reg):
         "implies({T}, ({R}[self.reaction_col] == old({R}[self.reaction_col]) and self.issue_col in {R} and is_str({R}[self.issue_col]) "
         "and {R}[self.rules_col] == old({R}[self.rules_col]) and (self.rules_col in {R}) == old(self.rules_col in {R})) "
         "or (is_str({R}[self.reaction_col]) and prefixof(as_str(old({R}[self.reaction_col])) + '.', as_str({R}[self.reaction_col])) "
+        "and implies(contains(as_str(old({R}[self.reaction_col])), '>>'), contains(as_str({R}[self.reaction_col]), '>>')) "
         "and ISCB(as_str({R}[self.reaction_col])) "
         "and {R}[self.issue_col] == old({R}[self.issue_col]) and (self.issue_col in {R}) == old(self.issue_col in {R}) "
         "and (not old(self.issue_col in {R}) or old({R}[self.issue_col]) == '') "
